@@ -3,7 +3,7 @@ import PanqecVerif.Model.Lattices.Planar2DCode
 open Panqec
 
 /-! `lat Planar2DCode <Lx> <Ly> qubits|stabs|stab <coord>|logx|logz|axis <coord>|type <coord>|
-    deform <name> <axis or -> <coord>|n|k` -/
+    deform <name> <axis or -> <coord>|rankfamily|n|k` -/
 namespace Drv
 
 def planar2DCodeModel (Lx Ly : Nat) : Lat2DModel where
@@ -12,6 +12,7 @@ def planar2DCodeModel (Lx Ly : Nat) : Lat2DModel where
   stabilizerType := Planar2DCode.stabilizerType Lx Ly
   qubitAxis := Planar2DCode.qubitAxis
   getDeformation := Planar2DCode.getDeformation
+  rankFamily := (Planar2DCode.lattice Lx Ly).stabs
 
 def handleLatPlanar2DCode : List String → Option String
   | "lat" :: "Planar2DCode" :: lx :: ly :: rest =>
